@@ -118,7 +118,10 @@ pub fn dump<M: Drv>(m: &M, with_cases: bool) -> Value {
         let mut all = Vec::new();
         let mut one = Vec::new();
         if with_cases {
-            for el in m.iter_ty(ty) {
+            // every element id, not only the representatives: a handle obtained before a merge is
+            // an element too (C15: `_case(el)` never panics and yields a case equal to el)
+            let n = m.cnt(ty);
+            for el in 0..n {
                 for c in m.enum_cases(ty, el) {
                     all.push(json!({"el": el, "ctor": c[0], "args": c[1..]}));
                 }
